@@ -1071,3 +1071,75 @@ contract(CF + 'FilesComparison.check_files', props=['C04'],
                    'every_pair_compared_failures_add_up(result, actual_paths, expected_paths, dict(lstrip=lstrip, '
                    'rstrip=rstrip, ignore_substrings=ignore_substrings, ignore_patterns=ignore_patterns, '
                    'remove_lines=remove_lines, preprocess=preprocess, max_permutation_cases=max_permutation_cases))')])
+
+
+# ---------------------------------------------------------------------------
+# check_string_against_file (C04, the string entry point): the reference file is read whole and cut into lines; a
+# string actual is cut the same way, a list of lines is taken as it is; both go to check_strings with the options
+# unchanged; a missing reference file is a failure.
+# ---------------------------------------------------------------------------
+
+def _csf_entry(it, senv):
+    missing = it.path.choose([True, True]) == 1
+    it.ghost['cf_missing'] = 1 if missing else 0
+    as_list = it.path.choose([True, True]) == 1
+    it.ghost['actual_is_list'] = as_list
+    if as_list:
+        senv['actual'] = [it.fresh_str('actual_line0'), it.fresh_str('actual_line1')]
+    else:
+        t = SObj('str', {'__open__': False, 'of': 'actual'}, label='actual text')
+        t.methods['splitlines'] = Builtin(lambda it3, self, *args: ('lines-of', 'actual', 'splitlines', args), 'splitlines')
+        t.methods['split'] = Builtin(lambda it3, self, *args: ('lines-of', 'actual', 'split', args), 'split')
+        t.methods['endswith'] = Builtin(lambda it3, self, s: it3.fresh(T.bool, 'endswith'), 'endswith')
+        senv['actual'] = t
+
+    def ghost_open(it2, path, mode='r', *a, **k):
+        if path is not senv['expected_path']:
+            raise Unsupported('a file other than the reference is opened')
+        if missing:
+            raise PyExc('IOError', 'No such file')
+        text = SObj('text', {'__open__': False, 'of': 'expected'}, label='content of expected')
+        text.methods['splitlines'] = Builtin(lambda it3, self, *args: ('lines-of', 'expected', 'splitlines', args), 'splitlines')
+        text.methods['split'] = Builtin(lambda it3, self, *args: ('lines-of', 'expected', 'split', args), 'split')
+        text.methods['endswith'] = Builtin(lambda it3, self, s: it3.fresh(T.bool, 'endswith'), 'endswith')
+        f = SObj('file', {'__open__': False}, label='expected')
+        f.methods['read'] = Builtin(lambda it3, self, *args: text, 'read')
+        f.methods['__enter__'] = Builtin(lambda it3, self: self, '__enter__')
+        return f
+    it.spec_env['open'] = Builtin(ghost_open, 'open')
+    diffs = SObj('Diffs', {'__open__': True}, label='msgs')
+    it.spec_env['Diffs'] = Builtin(lambda it2: diffs)
+    it.ghost['actual_arg'] = senv['actual']
+
+
+@specfn
+def string_compared_with_the_reference_text(it, result, expected_path, actual_path, options):
+    calls = it.ghost.get('cs_calls', [])
+    if it.ghost['cf_missing']:
+        return not calls and isinstance(result, tuple) and result[0] == 1
+    if len(calls) != 1:
+        return False
+    a, e, kw, code = calls[0]
+    ref_ok = isinstance(e, tuple) and e[:2] == ('lines-of', 'expected')
+    if it.ghost['actual_is_list']:
+        act_ok = a is it.ghost['actual_arg']
+    else:
+        act_ok = isinstance(a, tuple) and a[:2] == ('lines-of', 'actual') and ref_ok and a[2:] == e[2:]
+    handed_on = (kw.get('actual_path') is actual_path and kw.get('expected_path') is expected_path
+                 and all(kw.get(k) is v for k, v in options.items()))
+    return bool(ref_ok and act_ok and handed_on and isinstance(result, tuple) and result[0] is code)
+
+
+_csf = _CheckFile(CF + 'FilesComparison.check_string_against_file', props=['C04'],
+                  params=OrderedDict([('actual', None), ('expected_path', T.str), ('actual_path', T.opt(T.str))]
+                                     + [(k, T.opaque) for k in _CFOPT if k != 'msgs']
+                                     + [('create_temporaries', T.opaque), ('msgs', T.const(None)), ('encoding', T.opaque)]),
+                  self_view=_perm_view, on_entry=_csf_entry,
+                  spec_env=dict(ENV, string_compared_with_the_reference_text=string_compared_with_the_reference_text),
+                  result=T.none,
+                  ensures=[('the-string-and-the-reference-text-are-split-alike-options-handed-on',
+                            'string_compared_with_the_reference_text(result, expected_path, actual_path, '
+                            'dict(lstrip=lstrip, rstrip=rstrip, ignore_substrings=ignore_substrings, '
+                            'ignore_patterns=ignore_patterns, remove_lines=remove_lines, preprocess=preprocess, '
+                            'max_permutation_cases=max_permutation_cases, create_temporaries=create_temporaries))')])
+REGISTRY[_csf.ident] = _csf
